@@ -66,12 +66,19 @@ impl Win {
 
 fn wins(f: u64, w: u32) -> Vec<(&'static str, Win)> {
     let n = fam_n(f);
-    vec![
+    let v = vec![
         ("top", Win { shift: n - w, hi: 0 }),
         ("bot0", Win { shift: 0, hi: 0 }),
         ("bot1", Win { shift: 0, hi: u128::MAX }),
         ("mid", Win { shift: (n - w) / 2, hi: 0x2001_0db8_5a5a_a5a5_1234_5678_9abc_def0 }),
-    ]
+    ];
+    let mut v = v;
+    if f == 6 && w <= 16 {
+        // IPv4-mapped IPv6 addresses (::ffff:a.b.c.d): their text form ends in a dotted quad
+        v.push(("map_bot", Win { shift: 0, hi: 0xffffu128 << (32 - w) }));
+        v.push(("map_top", Win { shift: 32 - w, hi: 0xffff }));
+    }
+    v
 }
 
 fn mk_prefix(win: &Win, f: u64, w: u32, a: u128, l: u64) -> Result<Prefix, String> {
@@ -109,6 +116,16 @@ fn observe_pair(p: Prefix, pml: Option<u8>, q: Prefix, qml: Option<u8>, asn: (As
     let m = MaxLenPrefix::new(p, pml).map_err(|e| format!("MaxLenPrefix::new({p},{pml:?}): {e}"))?;
     let n = MaxLenPrefix::new(q, qml).map_err(|e| format!("MaxLenPrefix::new({q},{qml:?}): {e}"))?;
     let (o, r) = (RouteOrigin::new(m, asn.0), RouteOrigin::new(n, asn.1));
+    // the fields are public: a value written as a struct expression is as good as one from `new`, and the two kinds meet
+    let (o2, r2) = (RouteOrigin { prefix: m, asn: asn.0 }, RouteOrigin { prefix: n, asn: asn.1 });
+    let routes = [(o, r), (o2, r2), (o, r2), (o2, r)];
+    let all_same = |f: &dyn Fn(&RouteOrigin, &RouteOrigin) -> String| -> Option<String> {
+        let v: Vec<String> = routes.iter().map(|(a, b)| f(a, b)).collect();
+        if v.iter().all(|x| *x == v[0]) { None } else { Some(format!("{v:?}")) }
+    };
+    if let Some(d) = all_same(&|a, b| format!("{} {} {}", ord_obs(a, b), a == b, h(a) == h(b))) {
+        return Err(format!("RouteOrigin values made by `new` and by struct expression compare differently (cmp, ==, hash equality per pairing): {d}"));
+    }
     Ok(PairObs {
         covers: p.covers(q),
         cmp: ord_obs(&p, &q),
